@@ -91,7 +91,7 @@ assumed("annotate.SpanUpdater.get_diff_steps_builtin",
 def upd_clauses(offsets, updaters, posb, amt, cur_a, cur_b):
     rng = f"0 <= i and i < len({offsets})"
     return {
-        "shape": f"{offsets} is not None and {updaters} is not None and len({offsets}) == len({updaters}) and len({posb}) == len({offsets}) and len({amt}) == len({offsets}) "
+        "shape": f"{offsets} is not None and {updaters} is not None and len({offsets}) >= 0 and len({offsets}) == len({updaters}) and len({posb}) == len({offsets}) and len({amt}) == len({offsets}) "
                  f"and implies(len({offsets}) >= 1, {offsets}[0] == 0) and implies(len({offsets}) == 0, {cur_a} == 0) and 0 <= {cur_a} and 0 <= {cur_b}",
         "elems": f"forall(lambda i: implies({rng}, {updaters}[i] is not None and alive({updaters}[i]) and {updaters}[i].fn is not None and {updaters}[i].kw0 is not None "
                  f"and ({updaters}[i].fn == 0 or {updaters}[i].fn == 1) and {amt}[i] >= 1 and 0 <= {offsets}[i] and 0 <= {posb}[i] and {posb}[i] <= {cur_b}))",
@@ -103,6 +103,7 @@ def upd_clauses(offsets, updaters, posb, amt, cur_a, cur_b):
     }
 
 
+shared["upd_clauses"] = upd_clauses
 UPD_SELF = upd_clauses("self.offsets", "self.updaters", "self.posb", "self.amt", "self.len_a", "self.len_b")
 UPD = "self is not None and " + " and ".join(f"({v})" for v in UPD_SELF.values())
 
@@ -135,6 +136,8 @@ ghost_code("annotate.SpanUpdater.__init__", "at:return",
 contract("annotate.SpanUpdater.update",
     types={"self": "obj<SpanUpdater>", "offset": "int"}, returns="int", noraise=True, prop="C10",
     func_params={"bisect": ["bisect_left", "bisect_right"]},
+    # update() reads nothing but its arguments, self.offsets/self.updaters and the two fields of the selected partial
+    functional=["SpanUpdater.offsets", "SpanUpdater.updaters", "Partial.fn", "Partial.kw0"],
     requires={"upd": UPD, "offset": "offset is not None and 0 <= offset and offset <= self.len_a",
               # the excluded corner: an empty text_before has no range at all (IndexError, see DESIGN 6/C10)
               "nonempty": "len(self.offsets) >= 1"},
